@@ -62,14 +62,15 @@ def mergeOrder (g : Graph) (ε : Edge → List Include) : List Nat → Store →
     | .ok st' => mergeOrder g ε r st'
     | .error err => .error err
 
-/-- `TaskfileGraph.Merge` with topological order `σ` and per-edge include order `ε` -/
+/-- `TaskfileGraph.Merge` with topological order `σ` and per-edge include order `ε`; after
+the loop `ResolveRootRefs` is applied to the root vertex's table -/
 def Graph.merge (σ : List Nat) (ε : Edge → List Include) (g : Graph) : Except Err Taskfile :=
   match σ with
   | [] => .error .internal
   | root :: rest =>
     match mergeOrder g ε rest.reverse g.verts with
     | .ok st => match st.get root with
-      | some tf => .ok tf
+      | some tf => .ok { tf with tasks := resolveRootRefs tf.tasks }
       | none => .error .internal
     | .error e => .error e
 
